@@ -2207,7 +2207,7 @@ def r16_rewrite_hist(rng, c, mat):
                 vals = list(d[nm])
                 rng.shuffle(vals)
                 if rng.chance(0.5):
-                    vals[rng.below(len(vals))] = rng.choice([v for v in range(15, 30)])
+                    vals[rng.below(len(vals))] = rng.choice([v for v in range(15, 30) if v not in vals])
                 ops.append('pfill:%s:%s' % ('+'.join(group(nm, d)), '.'.join(str(x) for x in vals)))
                 d, u = content_after(c['names'], c['vals'], ops, c['repmax'])
         if t[0] == 'padd':
@@ -2740,6 +2740,8 @@ def r15file_cases(rng=None, count=0):
             if not arr:
                 out.append(dict(g, change=['scalar', 4, 5], second='all'))
                 out.append(dict(g, change=['elem', 'a', 1, 5], second='single:1'))
+                # (the variation that was NOT changed is resumed from its partial results, as it must)
+                out.append(dict(g, change=['elem', 'a', 1, 5], second='single:0'))
             else:
                 out.append(dict(g, change=['scalar', 4, 3], second='single:0'))
                 out.append(dict(g, change=['elem', 'a', 0, 2], second='all'))
@@ -2827,6 +2829,36 @@ def run_r16res(case):
                       % (_canon_results(rep, 0, case), rep_then, _canon_results(empty, 0, case), e_then,
                          _canon_results(empty2, 0, case))))
     del f_then
+    # (d) the SAME operand object merged twice into one collector == two copies of it merged;
+    # (e) ONE operand object whose Result objects are updated in place between two merges == a copy of the
+    #     contents at the time of each merge
+    try:
+        x, y = folded(g), folded(g)
+        rep = _rep_results(case, g[-1], 3, mat)
+        x.merge_all_results(rep)
+        x.merge_all_results(rep)
+        y.merge_all_results(copy.deepcopy(rep))
+        y.merge_all_results(copy.deepcopy(rep))
+        if _canon_results(x, 0, case) != _canon_results(y, 0, case):
+            viols.append(('SimulationResults.merge_all_results', 'R16:same-operand-object-merged-twice',
+                          'collector of %r, then the same results object merged twice: %s; two copies merged: %s'
+                          % (g, _canon_results(x, 0, case), _canon_results(y, 0, case))))
+        x, y = folded(g), folded(g)
+        rep = _rep_results(case, 2, 4, mat)
+        x.merge_all_results(rep)
+        y.merge_all_results(copy.deepcopy(rep))
+        rep['sum'][-1].update(3)
+        rep['misc'][-1].update(4)
+        rep['ratio'][-1].update(1, 8)
+        x.merge_all_results(rep)
+        y.merge_all_results(copy.deepcopy(rep))
+        if _canon_results(x, 0, case) != _canon_results(y, 0, case):
+            viols.append(('SimulationResults.merge_all_results', 'R16:operand-object-updated-between-merges',
+                          'one results object merged, updated in place, merged again: %s; copies of its contents '
+                          'merged: %s' % (_canon_results(x, 0, case), _canon_results(y, 0, case))))
+    except Exception as e:
+        viols.append(('SimulationResults.merge_all_results', 'R16:same-operand-object-merged-twice',
+                      'raises %s' % type(e).__name__))
     # (c)
     lst = [1, 2, 3]
     d = {'a': lst, 'k': 7}
@@ -2841,7 +2873,7 @@ def run_r16res(case):
     if got != ([1, 2, 3], 7, [4, 5], 8, [1]):
         viols.append(('SimulationParameters.get_unpacked_params_list', 'R16:argument-refilled-after-create',
                       'create(d); d refilled in place; create(d): %r' % (got,)))
-    return 'ok', {'checked': 3}, viols
+    return 'ok', {'checked': 5}, viols
 
 
 def run_r16arr(case):
